@@ -7,6 +7,8 @@ import SpVerif.Ops.Srv1
 import SpVerif.Ops.SeqCount
 import SpVerif.Ops.Cds
 import SpVerif.Ops.Crc
+import SpVerif.Ops.CfdpHeader
+import SpVerif.Ops.ByteField
 /-!
 # Line-protocol driver: one JSON object per input line (`{"op": …, …}`), one JSON result per output line.
 `{"ok": …}` / `{"err": "<category>"}` are model results; `{"bad": "<msg>"}` is a protocol error.
@@ -23,6 +25,8 @@ def allOps : List (String × Handler) := []
   ++ Ops.SeqCount.ops
   ++ Ops.Cds.ops
   ++ Ops.Crc.ops
+  ++ Ops.CfdpHeader.ops
+  ++ Ops.ByteField.ops
 
 def table : Std.HashMap String Handler := Std.HashMap.ofList allOps
 
